@@ -45,8 +45,21 @@ def norm(a):
     return out
 
 
+BITS = {"u8": 8, "i8": 8, "u16": 16, "i16": 16, "u32": 32, "i32": 32, "char": 32, "u64": 64, "i64": 64, "usize": 64, "isize": 64,
+        "u128": 128, "i128": 128}
+
+
 def is_var(e, pidx):
-    e = F.strip_casts(e)
+    """the parameter itself, possibly widened; a narrowing cast (`c as u8`) is a different value and is not looked through"""
+    while True:
+        if e[0] == "cast" and len(e) > 4 and e[3] == "IntToInt":
+            if BITS.get(e[1], 0) < BITS.get(e[4], 999):
+                return False
+            e = e[2]
+        elif e[0] in ("ref", "deref"):
+            e = e[1]
+        else:
+            break
     return e[0] == "param" and e[1] == pidx
 
 
@@ -98,11 +111,11 @@ def accepted(P, body, start_bb, pidx, top=None, limit=4000):
                 imprecise[0] = True
         elif k == "switch":
             e = O.switch_cond(bb)
-            e0 = F.strip_casts(e)
+            e0 = e
             neg = False
             while e0[0] == "un" and e0[1] == "Not":
                 neg = not neg
-                e0 = F.strip_casts(e0[2])
+                e0 = e0[2]
             if is_var(e0, pidx):
                 rest = iv
                 for v, tgt in zip(t["vals"], t["targets"]):
@@ -111,12 +124,13 @@ def accepted(P, body, start_bb, pidx, top=None, limit=4000):
                     rest = minus(rest, one)
                 go(t["otherwise"], rest, res, seen)
             elif e0[0] == "bin" and X.norm_op(e0[1]) in X.CMP_OPS and t.get("opty") == "bool":
-                l, r = F.strip_casts(e0[2]), F.strip_casts(e0[3])
+                l, r = e0[2], e0[3]
+                lc, rc = F.strip_casts(l), F.strip_casts(r)
                 tr = None
-                if is_var(l, pidx) and r[0] == "const":
-                    tr = split(X.norm_op(e0[1]), True, r[1], top)
-                elif is_var(r, pidx) and l[0] == "const":
-                    tr = split(X.norm_op(e0[1]), False, l[1], top)
+                if is_var(l, pidx) and rc[0] == "const":
+                    tr = split(X.norm_op(e0[1]), True, rc[1], top)
+                elif is_var(r, pidx) and lc[0] == "const":
+                    tr = split(X.norm_op(e0[1]), False, lc[1], top)
                 zero_t, other_t = t["targets"][0], t["otherwise"]
                 if int(t["vals"][0]) != 0:
                     zero_t, other_t = other_t, zero_t
